@@ -108,6 +108,21 @@ func universalDB(start, end int64) *Database {
 	if ts >= end-10 {
 		panic(fmt.Sprintf("window too small for the universal database: %d entries", len(d.Entries)))
 	}
+	// interleave in time: the k-th (stream, line) pair gets the timestamp slot k*stride mod N (stride coprime to N), so
+	// that for every predicate on the stream, on the line or on an extracted label, passing and failing entries
+	// alternate along the time axis (failing ones newer AND older than passing ones) — what LIMIT/direction needs
+	n := len(d.Entries)
+	stride := 37
+	for gcd(stride, n) != 1 {
+		stride++
+	}
+	slots := make([]int64, n)
+	for k := range d.Entries {
+		slots[k] = d.Entries[k].TS
+	}
+	for k := range d.Entries {
+		d.Entries[k].TS = slots[(k*stride)%n]
+	}
 	// window edges: one tick before start, at start, last tick before end, at end, one after
 	for _, s := range []int{famA[0], both, metric} {
 		for _, t := range []int64{start - 1, start, end - 1, end, end + 1} {
@@ -171,3 +186,10 @@ func smallDBs(start int64) []*Database {
 }
 
 func nsTime(ns int64) time.Time { return time.Unix(0, ns).UTC() }
+
+func gcd(a, b int) int {
+	for b != 0 {
+		a, b = b, a%b
+	}
+	return a
+}
